@@ -183,28 +183,29 @@ def gstrsN (piv : Array Nat) (L : Array (Vec K)) (U : Array (Array K)) (permC : 
   let z := backSolve U y
   (Array.range permC.size).map fun c => z.getD (permC.getD c 0) 0
 
-/-- `Uᵀ y = c` (forward substitution with U's columns), conjugated when `cj` -/
-def fwdSolveUt (cj : Bool) (U : Array (Array K)) (c : Array K) : Array K :=
-  let f (x : K) : K := if cj then HasConj.conj x else x
-  (List.range U.size).foldl (fun (y : Array K) j =>
-    let uj := U.getD j #[]
-    let s := (List.range j).foldl (fun (s : K) k => s - f (uj.getD k 0) * y.getD k 0) (c.getD j 0)
-    y.push (s / f (uj.getD j 0))) #[]
+/-- back substitution for an abstract upper triangular system `Σ_{j' ≥ j} M j j' z_j' = y j`,
+last unknown first: `triBack M y n k = [z_{n-k}, …, z_{n-1}]` -/
+def triBack (M : Nat → Nat → K) (y : Nat → K) (n : Nat) : Nat → List K
+  | 0 => []
+  | k + 1 =>
+    let zs := triBack M y n k
+    let j := n - (k + 1)
+    let s := (List.range k).foldl (fun (s : K) t => s - M j (j + 1 + t) * zs.getD t 0) (y j)
+    (s / M j j) :: zs
 
-/-- TRANS / CONJ solve of `op(A) x = b` (dgstrs.c:252-330, zgstrs.c): permute by `perm_c`, solve
-`op(U)`, then `op(L)` backwards, scatter to original rows -/
-def gstrsT (cj : Bool) (m : Nat) (piv : Array Nat) (L : Array (Vec K)) (U : Array (Array K)) (permC : Array Nat) (b : Vec K) : Vec K :=
-  let f (x : K) : K := if cj then HasConj.conj x else x
+/-- TRANS / CONJ solve `op(F) x = b` for a square `F` with `Pr (F Pc) = L U`
+(SRC/dgstrs.c:252-330, zgstrs.c): permute `b` by `perm_c`, solve `op(U)ᵀ t = c'` (a lower
+triangular system, solved as an upper one on reversed indices), then `op(L)ᵀ ξ = t` in pivot order,
+and scatter `x[piv k] = ξ_k`.  `f` is the identity (TRANS) or conjugation (CONJ). -/
+def gstrsT (f : K → K) (piv : Array Nat) (L : Array (Vec K)) (U : Array (Array K)) (permC : Array Nat) (b : Vec K) : Vec K :=
   let n := piv.size
-  -- c[perm_c[k]] = b[k]
-  let c : Array K := (List.range permC.size).foldl (fun (c : Array K) k => c.setIfInBounds (permC.getD k 0) (b.getD k 0)) (Array.replicate n 0)
-  let y := fwdSolveUt cj U c
-  -- op(L) t = y, t indexed by pivot position; x[piv k] = t_k.  Row i of op(L)ᵀ... : t_k = y_k - Σ_{k'>k} f(L_k[piv k']) t_k'
-  let t := (List.range n).reverse.foldl (fun (t : Array K) k =>
-    let lk := L.getD k #[]
-    let s := (List.range n).foldl (fun (s : K) k' => if k' > k then s - f (lk.getD (piv.getD k' 0) 0) * t.getD k' 0 else s) (y.getD k 0)
-    t.setIfInBounds k s) (Array.replicate n 0)
-  (List.range n).foldl (fun (x : Array K) k => x.setIfInBounds (piv.getD k 0) (t.getD k 0)) (Array.replicate m 0)
+  let rev (a : Nat) : Nat := n - 1 - a
+  -- c'[perm_c[c]] = b[c]
+  let cp (j : Nat) : K := b.get (((List.range n).find? fun c => permC.getD c 0 = j).getD 0)
+  let zs := triBack (fun a a' => f ((U.getD (rev a) #[]).getD (rev a') 0)) (fun a => cp (rev a)) n n
+  let t (k : Nat) : K := zs.getD (rev k) 0
+  let xi := triBack (fun k k' => if k = k' then 1 else f ((L.getD k #[]).get (piv.getD k' 0))) t n n
+  (Array.range n).map fun i => xi.getD (((List.range n).find? fun k => piv.getD k 0 = i).getD 0) 0
 end solve
 
 end Slu.LU
